@@ -499,7 +499,18 @@ func rulePXTag(c *Ctx) []Obligation {
 			if e.Kind == "call" && e.Fn != nil {
 				allKeys := false
 				if len(e.Args) > 0 && e.Args[0].HasEl && len(e.Args[0].Elems) == len(keys) {
+					// what is sorted must be the keys themselves (sorting the rendered pairs orders
+					// "a1:…" before "a:…")
 					allKeys = true
+					isKey := map[string]bool{}
+					for _, k := range keys {
+						isKey[k] = true
+					}
+					for _, el := range e.Args[0].Elems {
+						if !isKey[el.String()] {
+							allKeys = false
+						}
+					}
 				}
 				// a slice made with the map's length and filled slot by slot
 				if len(e.Args) > 0 && e.Args[0].Op == "make" && len(e.Args[0].A) == 1 && e.Args[0].A[0].String() == "len(recv.items)" {
